@@ -69,4 +69,23 @@ def run(ctx, idx):
             if in_exec:
                 continue  # execute bodies are covered by C09.a through the alias analysis
             ctx.violate("C09.c", "%s::write-through-result" % K.where(mod, f), mod.rel, node.lineno, "a store goes through `.result` of a command: %s" % K.src(node))
+    # the memo itself is rebound only by Command.run: a cleaner or consumer that stores a converted / validated copy back into
+    # `<command>._result` changes the element type or the object under every later reader
+    n_mem = 0
+    for mod, f, nd in K.scoped_nodes(idx):
+        hit = None
+        if isinstance(nd, ast.Attribute) and isinstance(nd.ctx, (ast.Store, ast.Del)) and nd.attr == A.memo:
+            hit = nd
+        if isinstance(nd, ast.Call) and isinstance(nd.func, ast.Name) and nd.func.id == "setattr" and len(nd.args) >= 2 and isinstance(nd.args[1], ast.Constant) and nd.args[1].value == A.memo:
+            hit = nd
+        if hit is None:
+            continue
+        n_mem += 1
+        inside = f is A.run or f is A.init
+        if not inside and f is not None and f.cls is A.command:
+            continue  # methods of Command itself are C01.b's business (release protocols and the like)
+        ctx.ob("C09.c", "%s::store(%s)" % (K.where(mod, f), A.memo), mod.rel, hit.lineno, inside,
+               "the memo is stored by Command.run / __init__" if inside else
+               "`%s` rebinds a command's stored result from outside Command.run: a result that consumers have already read is replaced (another object, another element type) depending on which command is validated or run next" % K.src(hit)[:60], nontrivial=not inside)
+    ctx.floor("C09.c", "stores to the memo field", n_mem, 2)
     ctx.hold("C09.c", "package::no-write-through-result", "mpilot", 0, "no store through `.result` outside execute bodies (%d candidate statement(s) inspected)" % n, nontrivial=False)
